@@ -43,7 +43,14 @@ func genC20(seed uint64, tier string) *Plan {
 	o.NoConst = true
 	o.Crosstab = false
 	o.DataSpan = span
-	p.Ops = append(p.Ops, Op{K: "check", Strs: genBattery(r, p, u, o, r.Range(3, 8))})
+	battery := genBattery(r, p, u, o, r.Range(3, 8))
+	// fields that are constant arithmetic (the rest of the battery avoids
+	// constant operands because of the recorded gap-row finding; a pure
+	// constant next to _points cannot create rows of its own in a grouped
+	// query that is compared between cluster and standalone)
+	t0 := p.Tables[0].Name
+	battery = append(battery, "SELECT 60 * 60 AS k0, _points FROM "+t0+" GROUP BY da", "SELECT _points, (2 + 3) * 4 AS k1 FROM "+t0+" GROUP BY _")
+	p.Ops = append(p.Ops, Op{K: "check", Strs: battery})
 	return p
 }
 
@@ -181,8 +188,13 @@ func (c *Cluster) checkFields(in, out core.Fields) {
 		c.e.setAsync(&Violation{"codec-fields-differ", fmt.Sprintf("field list decoded from the RPC codec differs: sent %v, received %v", in, out)})
 		return
 	}
-	// an expression must also keep the layout of its stored values
+	// an expression must also keep the layout of its stored values and its
+	// being constant (which decides how values are read from a series)
 	for i := range in {
+		if in[i].Expr.IsConstant() != out[i].Expr.IsConstant() {
+			c.e.setAsync(&Violation{"codec-field-constness-differs", fmt.Sprintf("field %v decoded from the RPC codec reports IsConstant=%v, the original %v", in[i], out[i].Expr.IsConstant(), in[i].Expr.IsConstant())})
+			return
+		}
 		if in[i].Expr.EncodedWidth() != out[i].Expr.EncodedWidth() {
 			c.e.setAsync(&Violation{"codec-field-width-differs", fmt.Sprintf("field %v decoded from the RPC codec has encoded width %d, the original %d", in[i], out[i].Expr.EncodedWidth(), in[i].Expr.EncodedWidth())})
 			return
